@@ -39,6 +39,10 @@ var checks = map[string]Check{
 					js = append(js, j)
 				}
 			}
+			// a calling-side plugin whose post-write stage fails, crossed with the connection events
+			for _, ev := range []string{"none", "localclose", "remoteclose", "break"} {
+				js = append(js, sched("c02_live", "proto=raw,calls=1,hookfail=1,event="+ev, b, 8))
+			}
 			// the caller consumes the completion from its own channel and reads the status at once
 			evs := []string{"remoteclose"}
 			if tier == "thorough" {
@@ -82,7 +86,7 @@ var checks = map[string]Check{
 	},
 	"C01": {
 		Level:       "model_checking",
-		Rule:        "stateless DFS over all interleavings (preemption bound) of 2-3 concurrent Call/AsyncCall/Push operations (one session, both directions, two sessions) with tagged bodies+metadata of different lengths; the full (protocol x body codec x filter pipe) product over raw/json/pb/thrift-binary plus http x codec x {none, gzip} at bound 0, selected configurations deeper; oracles: result/handler input/metadata agree with the sender's tag, handler inputs stable across a yield, multiset of handled = multiset sent",
+		Rule:        "stateless DFS over all interleavings (preemption bound) of 2-3 concurrent Call/AsyncCall/Push operations (one session, both directions, two sessions) with tagged bodies+metadata of different lengths; the full (protocol x body codec x filter pipe) product over raw/json/pb/thrift-binary plus http x codec x {none, gzip} at bound 0, selected configurations deeper; handlers registered as functions and (ctl=1) as struct controllers; oracles: result/handler input/metadata agree with the sender's tag, handler inputs stable across a yield, multiset of handled = multiset sent",
 		Assumptions: baseAssumptions,
 		Jobs: func(tier string) []Job {
 			var js []Job
@@ -102,9 +106,9 @@ var checks = map[string]Check{
 					}
 				}
 			}
-			deep := []string{"proto=raw,body=json,k=2", "proto=raw,body=json,k=2,pipe=g"}
+			deep := []string{"proto=raw,body=json,k=2", "proto=raw,body=json,k=2,pipe=g", "proto=raw,body=json,k=2,ctl=1"}
 			if tier == "thorough" {
-				deep = []string{"proto=raw,body=json,k=2", "proto=raw,body=json,k=2,pipe=g", "proto=raw,body=plainnamed,k=2", "proto=raw,body=form,k=2,pipe=g", "proto=raw,body=json,shape=S2,k=1", "proto=raw,body=json,shape=S3", "proto=raw,body=plain,op=callpush,k=2", "proto=raw,body=protobuf,op=async,k=2"}
+				deep = []string{"proto=raw,body=json,k=2", "proto=raw,body=json,k=2,pipe=g", "proto=raw,body=json,k=2,ctl=1", "proto=raw,body=json,op=callpush,k=2,ctl=1", "proto=raw,body=plainnamed,k=2", "proto=raw,body=form,k=2,pipe=g", "proto=raw,body=json,shape=S2,k=1", "proto=raw,body=json,shape=S3", "proto=raw,body=plain,op=callpush,k=2", "proto=raw,body=protobuf,op=async,k=2"}
 			}
 			for _, d := range deep {
 				j := sched("c01", d, 1, 16)
@@ -164,6 +168,14 @@ var checks = map[string]Check{
 					js = append(js, j)
 				}
 			}
+			if tier == "thorough" {
+				// Peer.Close with a second, idle session of the closing peer
+				for _, d := range []string{"in", "out"} {
+					j := sched("c08", fmt.Sprintf("dir=%s,closer=peer,yields=0,idle=1", d), 0, 16)
+					j.Budget = 300
+					js = append(js, j)
+				}
+			}
 			// the other wire protocols (a reply may be written in several pieces)
 			for _, pr := range []string{"json", "pb", "thrift"} {
 				for _, d := range []string{"in", "out"} {
@@ -181,7 +193,7 @@ var checks = map[string]Check{
 	},
 	"C03": {
 		Level:       "model_checking",
-		Rule:        "a scripted raw peer sends every frame of the alphabet {type byte x route x body x codec id x metadata} to a real server for every plugin veto stage and with/without unknown-handlers, then a probe call; all non-preemptive schedules (bound 0) for single frames, all interleavings up to the bound for every pair of back-to-back frames (same/different seq, blocking/panicking/erroring handlers); the oracle parses the server's wire output with an independent frame parser (raw protocol); the same alphabet and pairs also through the json, pb, thrift-binary and http protocols (frames built and parsed with the protocol's own Pack/Unpack, whose round trip is checked under C05)",
+		Rule:        "a scripted raw peer sends every frame of the alphabet {type byte x route x body x codec id x metadata} to a real server for every plugin veto stage and with/without unknown-handlers, then a probe call; all non-preemptive schedules (bound 0) for single frames, all interleavings up to the bound for every pair of back-to-back frames (same/different seq, blocking/panicking/erroring handlers); the oracle parses the server's wire output with an independent frame parser (raw protocol); the same alphabet and pairs also through the json, pb, thrift-binary and http protocols (frames built and parsed with the protocol's own Pack/Unpack, whose round trip is checked under C05); plus every history of depth 4 (quick) / 6 over {CALL, server push with a one-hour write deadline, server push without deadline, two hours pass on the network clock}: every CALL still gets exactly one reply",
 		Assumptions: baseAssumptions,
 		Jobs: func(tier string) []Job {
 			var js []Job
@@ -199,6 +211,14 @@ var checks = map[string]Check{
 			} else {
 				js = append(js, sched("c03_pair", "", 1, 4))
 			}
+			// messages with and without a write deadline alternating with calls while the network clock advances
+			dl := sched("c03_deadline", "depth=4", 0, 1)
+			dl.EnvOnly = true
+			if tier == "thorough" {
+				dl.Params = "depth=6"
+				dl.Shards = 4
+			}
+			js = append(js, dl)
 			// the same alphabet and pairs through the other protocols (frames built with the protocol's own Pack;
 			// frames a protocol cannot carry are counted as not representable)
 			for _, pr := range []string{"json", "pb", "thrift", "http"} {
@@ -235,9 +255,11 @@ var checks = map[string]Check{
 			if tier == "thorough" {
 				d = "4"
 			}
-			sq := sched("c04_live", "proto=raw,mode=seq,depth="+d, 0, 4)
-			sq.EnvOnly = true
-			js = append(js, sq)
+			for _, pr := range []string{"raw", "json", "pb", "thrift", "http"} {
+				sq := sched("c04_live", "proto="+pr+",mode=seq,depth="+d, 0, 4)
+				sq.EnvOnly = true
+				js = append(js, sq)
+			}
 			js = append(js, Job{Mode: "enum", Name: "c04_frames", Shards: 4})
 			// a call cancelled by a disconnection: the status the caller reads at the moment of completion
 			// (from its own completion channel or after Done) is already the final non-OK status
@@ -298,7 +320,7 @@ var checks = map[string]Check{
 	},
 	"C10": {
 		Level:       "exploration",
-		Rule:        "(i) both exported mappers on every identifier of length <=5 (quick) / 8 over {A,B,a,b,_,1} x 5 prefixes: total, deterministic, equal to a reference implementation on the sub-language the documentation defines (letter words joined by _ or __), README rows verbatim; (ii) live dispatch: every ordered pair of 10 compiled controller/function registrations (chosen to cover every mapping rule and name-collision class) x 3x3 group nestings x both mappers x unknown-handlers set/unset; after registration every returned name and 10+ near-misses per name are requested as CALL and as PUSH; a case = one (identifier, prefix) or one registration program",
+		Rule:        "(i) both exported mappers on every identifier of length <=5 (quick) / 8 over {A,B,a,b,_,1} x 5 prefixes: total, deterministic, equal to a reference implementation on the sub-language the documentation defines (letter words joined by _ or __), README rows verbatim; (ii) live dispatch: every ordered pair of 10 compiled controller/function registrations (chosen to cover every mapping rule and name-collision class) x 3x3 group nestings x both mappers x unknown-handlers set/unset; after registration every returned name and 10+ near-misses per name are requested as CALL and as PUSH; (iii) a header plugin that rewrites the requested name (aliases, case folding) x 11 wire names x CALL/PUSH x unknown-handlers: the handler registered under the rewritten name runs and sees that name; a case = one (identifier, prefix) or one registration program",
 		Assumptions: []string{"the framework's Fatalf is intercepted by a logger outputter that panics on CRITICAL, so a registration conflict is observable without exiting", "identifier classes with leading/trailing/3+ underscores or digits are checked for totality and determinism only (the documentation does not define their mapping)"},
 		Jobs: func(tier string) []Job {
 			l := "5"
@@ -308,6 +330,7 @@ var checks = map[string]Check{
 			return []Job{
 				{Mode: "enum", Name: "c10_mapper", Params: "len=" + l, Shards: 8},
 				sched("c10_route", "", 0, 16),
+				sched("c10_rewrite", "", 0, 1),
 			}
 		},
 	},
@@ -343,7 +366,8 @@ var checks = map[string]Check{
 					js = append(js, sched("c09", "kind="+k+",late="+l, b, 2))
 				}
 			}
-			js = append(js, sched("c09_siblings", "", b, 1), sched("c09_caller", "", b, 1))
+			// the calling side at one preemption: reply stages may not overtake the post-write stage
+			js = append(js, sched("c09_siblings", "", b, 1), sched("c09_caller", "", 1, 2))
 			// a call/push that is re-sent after a redial from the write path: every calling-side hook at most once
 			js = append(js, sched("c13_revive", "op=call,budget=1", 1, 2), sched("c13_revive", "op=push,budget=1", 1, 2))
 			if tier == "thorough" {
@@ -401,7 +425,7 @@ var checks = map[string]Check{
 	},
 	"C17": {
 		Level:       "model_checking",
-		Rule:        "full product {call,push} x secure marker {absent,true,false} x accept marker {absent,true,false} x key pair {same 16/24/32 bytes, different} x value length {0,1,15,16,17,100} for the json and xml body codecs over the raw protocol and the json codec over the json and pb protocols, on live sessions under every non-preemptive schedule; oracle: handler argument/caller result equality, plaintext substring search on the captured wire in both directions, reply encrypted iff requested, different key => no handler/no result and non-OK, unmarked traffic byte-identical to a run without the plugin",
+		Rule:        "full product {call,push} x secure marker {absent,true,false} x accept marker {absent,true,false} x key pair {same 16/24/32 bytes, different} x value length {0,1,15,16,17,100} for the json and xml body codecs over the raw protocol and the json codec over the json and pb protocols, on live sessions under every non-preemptive schedule; oracle: handler argument/caller result equality, plaintext substring search on the captured wire in both directions, reply encrypted iff requested, different key => no handler/no result and non-OK, unmarked traffic byte-identical to a run without the plugin; plus every sequence of 4 (quick) / 5 marked and unmarked calls and pushes on one session, each judged on its own slice of the captured wire",
 		Assumptions: baseAssumptions,
 		Jobs: func(tier string) []Job {
 			js := []Job{sched("c17", "codec=json", 0, 2), sched("c17", "codec=xml", 0, 2), sched("c17", "codec=json,proto=json", 0, 2), sched("c17", "codec=json,proto=pb", 0, 2)}
@@ -409,6 +433,16 @@ var checks = map[string]Check{
 			b := 1
 			if tier == "thorough" {
 				b = 2
+			}
+			// every sequence of marked/unmarked calls and pushes on one session (recycled contexts and swap maps)
+			for _, pr := range []string{"raw", "json"} {
+				sq := sched("c17_seq", "depth=4,proto="+pr, 0, 2)
+				sq.EnvOnly = true
+				if tier == "thorough" {
+					sq.Params = "depth=5,proto=" + pr
+					sq.Shards = 8
+				}
+				js = append(js, sq)
 			}
 			for _, op := range []string{"call", "push"} {
 				j := sched("c13_revive", "secure=1,budget=1,op="+op, b, 4)
@@ -420,7 +454,7 @@ var checks = map[string]Check{
 	},
 	"C18": {
 		Level:       "model_checking",
-		Rule:        "(a) all histories up to depth 5 (quick) / 7 over {connect, remote close i, local close i, update limit to 0 (off)/1/2/3} with N in {1,2} against a counter model (admit iff the limit is off or live < limit, where live counts every admitted session that has not ended, rejected closed, CountSession exact); (b) all interleavings (preemption bound) of 3 concurrent connects with one early disconnect: never more than N admitted at once and exactly N admitted afterwards; (c) token bucket: taker threads x attempts against refill ticks delivered to the limiter's own goroutine, all interleavings: admitted <= capacity + refill x ticks + ticks; (d) live session: every history of depth 5 (quick) / 7 over {call to an unlimited route, call to a route with a handler limit, push, refill tick}: a call is OK iff its handler ran, a rejected call carries the overload error and is not handled, and every window of the history stays within the bucket bound for the total and the handler limit",
+		Rule:        "(a) all histories up to depth 5 (quick) / 7 over {connect, remote close i, local close i, update limit to 0 (off)/1/2/3} with N in {1,2} against a counter model (admit iff the limit is off or live < limit, where live counts every admitted session that has not ended, rejected closed, CountSession exact); (b) all interleavings (preemption bound) of 3 concurrent connects with one early disconnect: never more than N admitted at once and exactly N admitted afterwards; (c) token bucket: taker threads x attempts against refill ticks delivered to the limiter's own goroutine, all interleavings: admitted <= capacity + refill x ticks + ticks; (d) live session: every history of depth 6 (quick) / 7 over {call to an unlimited route, call to a route with a handler limit, push, refill tick, change of the refill interval}: a call is OK iff its handler ran, a rejected call carries the overload error and is not handled, and no message is admitted when an exact token count (full at the start, +1 per tick up to the capacity, -1 per admission) says the total or the handler bucket is empty",
 		Assumptions: baseAssumptions,
 		Jobs: func(tier string) []Job {
 			if tier == "thorough" {
@@ -435,14 +469,14 @@ var checks = map[string]Check{
 				live.EnvOnly = true
 				return []Job{a, b, c, d, live}
 			}
-			live := sched("c18_live", "depth=5", 0, 2)
+			live := sched("c18_live", "depth=6", 0, 4)
 			live.EnvOnly = true
 			return []Job{live, sched("c18_hist", "depth=5,off=1", 0, 4), sched("c18_race", "threads=3", 2, 8), sched("c18_qps", "takers=2,takes=3,ticks=2", 2, 2), sched("c18_qps", "takers=1,takes=6,ticks=1", 3, 1)}
 		},
 	},
 	"C19": {
 		Level:       "model_checking",
-		Rule:        "full product (4320 configurations) {call,push} x {method served by the backend, served nowhere} x caller codec {json,plain,protobuf} x 4 body byte strings x 5 request-metadata sets (duplicate key, real-ip present/absent) x 6 backend statuses x backend failure {none, before, during forwarding} on a live client -> proxy -> backend chain (all links over raw, and again over json, pb and thrift-binary), compared with the same request sent directly to an identical backend (metamorphic oracle: body bytes, status triple, reply metadata one value per key, reply codec, backend invocation count and metadata view, real-ip injected iff absent, 502 on backend failure); plus every sequence of 4 (quick) / 6 calls and pushes with empty, short and long bodies through one proxy, each compared with the direct call and with what the backend received",
+		Rule:        "full product (4320 configurations) {call,push} x {method served by the backend, served nowhere} x caller codec {json,plain,protobuf} x 4 body byte strings x 5 request-metadata sets (duplicate key, real-ip present/absent) x 6 backend statuses x backend failure {none, before, during forwarding} on a live client -> proxy -> backend chain (all links over raw, and again over json, pb and thrift-binary), compared with the same request sent directly to an identical backend (metamorphic oracle: body bytes, status triple, reply metadata one value per key, reply codec, backend invocation count and metadata view, real-ip injected iff absent, 502 on backend failure); plus every sequence of 4 (quick) / 6 calls and pushes with empty, short and long bodies through one proxy, each compared with the direct call and with what the backend received; plus a call/push that reaches a redial-enabled forwarder while it is reconnecting to the backend (gated so that the loss precedes the request): result equal to the direct one",
 		Assumptions: append([]string{"backend statuses in the reserved connection-class range 100..199 are outside the alphabet (the plugin documents rewriting them to 502)", "quick tier: deterministic default schedule per configuration; thorough: all non-preemptive schedules within a time budget"}, baseAssumptions...),
 		Jobs: func(tier string) []Job {
 			j := sched("c19", "", 0, 8)
@@ -450,7 +484,15 @@ var checks = map[string]Check{
 			// every sequence of calls/pushes with empty, short and long bodies through one proxy (pooled contexts reused)
 			sq := sched("c19_seq", "depth=4", 0, 4)
 			sq.EnvOnly = true
-			js := []Job{j, sq}
+			// a request that arrives while the redial-enabled forwarder is reconnecting to the backend
+			rd := sched("c19_redial", "", 0, 1)
+			rd.EnvOnly = true
+			js := []Job{j, sq, rd}
+			if tier == "thorough" {
+				rs := sched("c19_redial", "", 0, 16)
+				rs.Budget = 300
+				js = append(js, rs)
+			}
 			// the same product and sequences with all three links over the json, pb and thrift-binary protocols
 			for _, pr := range []string{"json", "pb", "thrift"} {
 				pj := sched("c19", "proto="+pr, 0, 4)
@@ -515,7 +557,7 @@ var checks = map[string]Check{
 				}
 			}
 			// repeated losses: the reconnected session loses its new connection again (break, then remote close)
-			for _, prm := range []string{"fault=idle,budget=1,down=0,losses=3", "fault=idle,budget=-1,down=3,losses=3", "fault=awaiting,budget=2,down=1,losses=2", "fault=write,budget=1,down=0,losses=2", "fault=idle,budget=1,down=0,losses=2,setid=0"} {
+			for _, prm := range []string{"fault=idle,budget=1,down=0,losses=3", "fault=idle,budget=1,down=1,losses=3", "fault=idle,budget=2,down=1,losses=4", "fault=idle,budget=2,down=2,losses=3", "fault=idle,budget=-1,down=3,losses=3", "fault=awaiting,budget=2,down=1,losses=2", "fault=write,budget=1,down=0,losses=2", "fault=idle,budget=1,down=0,losses=2,setid=0"} {
 				j := sched("c13", prm, 0, 1)
 				if tier == "thorough" {
 					j.Bound = 1
@@ -616,7 +658,7 @@ var checks = map[string]Check{
 	},
 	"C06": {
 		Level:       "fault_enumeration",
-		Rule:        "per protocol (raw, json, pb, thrift-binary, http) a live server session is fed one hostile input and then EOF, next to a control session on the same peer: (a) every byte string up to length 4 (quick) / 6 over a 7-symbol per-protocol alphabet, (b) every prefix of every frame of a 4-frame alphabet packed by the real protocol, (c) 7 single-byte substitutions at every offset of those frames, (d) the size field (size word / Content-Length) set to 12 boundary values around the read limit followed by a 64 KiB payload; oracles: no escaped panic, no blocked goroutine after EOF and close, session cleanly ended (health, close notification, index), control session answers a probe, bytes allocated while handling the input <= limit + fixed slack, oversize announcement => disconnect with at most the transport read-ahead consumed; a case = one input; distinct = distinct observation logs",
+		Rule:        "per protocol (raw, json, pb, thrift-binary, http) a live server session is fed one hostile input and then EOF, next to a control session on the same peer: (a) every byte string up to length 4 (quick) / 6 over a 7-symbol per-protocol alphabet, (b) every prefix of every frame of a 4-frame alphabet packed by the real protocol, (c) 7 single-byte substitutions at every offset of those frames, (d) the size field (size word / Content-Length) set to 12 boundary values around the read limit followed by a 64 KiB payload; oracles: no escaped panic, no blocked goroutine after EOF and close, session cleanly ended (health, close notification, index), control session answers a probe, bytes allocated while handling the input <= limit + fixed slack, oversize announcement => disconnect with at most the transport read-ahead consumed; classes (b) and (c) again with a call of the attacked session waiting for a reply, which must complete (non-OK) once the input is exhausted; a case = one input; distinct = distinct observation logs",
 		Assumptions: append([]string{"allocation is measured with runtime.MemStats.TotalAlloc around the handling of one input (slack 768 KiB + 2x input length); inputs are fed under the deterministic default schedule (quick) / all non-preemptive schedules (thorough, raw)", "read limits 1024 (all protocols) and 64 / 1 MiB (raw)"}, baseAssumptions...),
 		Jobs: func(tier string) []Job {
 			var js []Job
@@ -627,6 +669,17 @@ var checks = map[string]Check{
 			for _, pr := range []string{"raw", "json", "pb", "thrift", "http"} {
 				for _, cl := range []string{"prefix", "subst", "length", "alphabet"} {
 					j := sched("c06", "proto="+pr+",class="+cl+",len="+l, 0, 2)
+					j.EnvOnly = true
+					if tier == "thorough" {
+						j.Shards = 8
+					}
+					js = append(js, j)
+				}
+			}
+			// the attacked session has a call of its own waiting for a reply
+			for _, pr := range []string{"raw", "json", "pb", "thrift", "http"} {
+				for _, cl := range []string{"prefix", "subst"} {
+					j := sched("c06", "proto="+pr+",class="+cl+",len="+l+",pending=1", 0, 2)
 					j.EnvOnly = true
 					if tier == "thorough" {
 						j.Shards = 8
